@@ -334,7 +334,10 @@ def run_unit(unit, repo, scratch, features=None, rlimit=30, multiple_errors=4, t
     #  (b) a helper function that a change introduced (not in the inventory of the pinned tree, no contract) tells its caller nothing.
     # In both cases a failure in that function / in code calling the helper is UNDECIDED, never a violation.
     lost_fns = set(h['fn'] for h in meta.get('lost_hints', []))
-    new_helpers = _new_helpers(unit, gen, fns)
+    # only functions defined in the extracted source part of the generated file (not in the contract prelude / postlude)
+    _gl = gen.split('\n')
+    _src = '\n'.join(_gl[meta.get('prelude_lines', [0, 0])[1]:max(0, meta.get('postlude_line', len(_gl)) - 1)])
+    new_helpers = _new_helpers(unit, _src, fns)
     kept = []
     for f in failures:
         if f['fn'] in lost_fns:
